@@ -15,7 +15,10 @@ SPEC = dict(
          "nearly parallel second vector; Transform / InverseTransform algebra, Rotation products, re-expression, quaternion "
          "product, closest-rotation fitting of noisy matrices; three-angle extraction also from rotations NOT built by the "
          "same-sequence constructor (quaternion-built; near-gimbal rotations reached through a product, |cos th2| down to "
-         "1e-14); D tags count the extraction branch taken (regular / singular+ / singular-); distinct = distinct input records",
+         "1e-14); D tags count the extraction branch taken (regular / singular+ / singular-); NON-canonical inputs as guaranteed "
+         "classes (3 of 28 streams + products): unit quaternions with q0 < 0, q0 == 0, q0 tiny +-, q0 near -1, normalised from raw "
+         "Vec4, products of canonical factors beyond 180 degrees; angle-axis with angle in (pi,2pi), negative, beyond 2pi, near "
+         "+-pi, either axis orientation; distinct = distinct input records",
     partial="atan2 is a parameter: the Euler / angle-axis theorems are about the executed extraction functions and state "
             "exactly which (sin-like, cos-like) pairs atan2 is handed in every branch (regular and both gimbal-lock branches, "
             "all 6+6 axis orders, body and space); that atan2(k sin t, k cos t) = t for k > 0 is libm (trusted).  Predicate/"
